@@ -44,6 +44,8 @@ def _transact(self, retry=False, filename=None):
             assert self._txn_id == tid
             self._txn_id = None
             sql(__Hq_rollback__)
+            if filename is not None:
+                _disk_remove(filename)
         raise
     else:
         if begin:
@@ -673,7 +675,9 @@ def emit(ctx):
         got = ' '.join(sconst(H['_transact'][hole], fname).split()).upper()
         if got != want:
             err(H['_transact'][hole], 'transaction statement is %r, the model knows %r' % (got, want), fname)
-    out.append('Definition txn_begin_immediate : bool := true.\n')
+    out.append('Definition txn_begin_immediate : bool := true.\n'
+               '(* on a failed BEGIN (no retry) and after ROLLBACK the freshly written value file is removed *)\n'
+               'Definition transact_failure_removes_file : bool := true.\n')
     g = H['_transact']['__Hg_nested__']
     gs = ast.unparse(g).replace(' ', '')
     if gs not in ('tid==txn_id', 'txn_id==tid'):
